@@ -299,5 +299,15 @@ func init() {
 			return strings.HasSuffix(first, ".mu.Lock()")
 		}
 		f.boolFact("pbarLazyInitLocked", locked("pkg/pbar/bar.go", "bar", "ensureInternalBar") && locked("pkg/pbar/progress.go", "Container", "ensureProgress"))
+		// C16: Done() drives a bar that has a fixed total to that total before it waits for completion
+		forces := false
+		if fd := f.funcDecl("pkg/pbar/bar.go", "bar", "Done"); fd != nil {
+			body := f.src(fd.Body)
+			i := strings.Index(body, ".SetTotal(-1, true)")
+			j := strings.Index(body, ".SetCurrent(math.MaxInt64)")
+			k := strings.LastIndex(body, ".Wait()")
+			forces = i >= 0 && j > i && k > j
+		}
+		f.boolFact("pbarDoneForcesCompletion", forces)
 	})
 }
